@@ -619,6 +619,25 @@ pub fn run(args: &Args) -> Report {
         .reduce(Acc::default, Acc::merge);
     flush(&mut report, "from_components", acc);
 
+    // the length dimension: components around 255 / 256 and 65535 / 65536 bytes, one at a time
+    // and together (boundaries of narrow offset types)
+    let mut acc = Acc::default();
+    let marks = [1usize, 2, 254, 255, 256, 257, 65_534, 65_535, 65_536, 65_537, 70_000];
+    for pos in 0..4 {
+        for m in marks {
+            let mut lens = [3usize, 3, 3, 3];
+            lens[pos] = m;
+            if pos == 1 && m == 1 {
+                lens[1] = 0; // the empty instance
+            }
+            check_long_rid(lens, &mut acc);
+        }
+    }
+    for lens in [[65_536usize, 0, 1, 1], [30_000, 30_000, 30_000, 30_000], [65_533, 1, 1, 1], [32_767, 32_768, 1, 70_000], [255, 255, 255, 255], [65_536, 65_536, 65_536, 65_536]] {
+        check_long_rid(lens, &mut acc);
+    }
+    flush(&mut report, "long_rids", acc);
+
     report.bound("token_max_len", n);
     report.bound("token_alphabet", json!(TOKEN_ALPHABET));
     report.bound("rid_symbol_alphabet", json!(rid_symbols));
@@ -633,6 +652,57 @@ pub fn run(args: &Args) -> Report {
     report
 }
 
+/// a rid whose components have the given byte lengths: accepted, rendered back identically,
+/// and split at the right offsets (the stored boundaries must not wrap or saturate)
+pub fn check_long_rid(lens: [usize; 4], acc: &mut Acc) {
+    acc.states += 1;
+    acc.accepted += 1;
+    let fill = |n: usize, first: char, rest: &str| -> String {
+        let mut s = String::with_capacity(n);
+        if n > 0 {
+            s.push(first);
+        }
+        let cs: Vec<char> = rest.chars().collect();
+        for i in 1..n {
+            s.push(cs[i % cs.len()]);
+        }
+        s
+    };
+    let parts = [fill(lens[0], 's', "ab-0"), fill(lens[1], '1', "cd-9"), fill(lens[2], 't', "ef-5"), fill(lens[3], 'L', "Ab_.-9")];
+    let text = format!("ri.{}.{}.{}.{}", parts[0], parts[1], parts[2], parts[3]);
+    let case = json!({"kind": "long-rid", "lens": lens});
+    let cls = format!("lens={:?}", lens.map(|l| if l >= 65536 { ">=64Ki" } else if l >= 256 { ">=256" } else { "short" }));
+    let mut routes: Vec<(&'static str, Option<ResourceIdentifier>)> = vec![
+        ("new", ResourceIdentifier::new(&text).ok()),
+        ("from_str", text.parse().ok()),
+        ("from_components", ResourceIdentifier::from_components(&parts[0], &parts[1], &parts[2], &parts[3]).ok()),
+        ("json", conjure_serde::json::client_from_str(&format!("\"{}\"", text)).ok()),
+    ];
+    routes.push(("from_plain", conjure_object::FromPlain::from_plain(&text).ok()));
+    for (path, got) in routes {
+        acc.evaluations += 1;
+        match got {
+            None => acc.viol.push((format!("C16|long-rid|{}|valid-rejected|{}", path, cls), format!("a valid rid with component lengths {:?} is rejected by {}", lens, path), case.clone())),
+            Some(r) => {
+                let split = vcommon::catch(|| [r.service().to_string(), r.instance().to_string(), r.type_().to_string(), r.locator().to_string()]);
+                let got_parts = match split {
+                    Ok(p) => p,
+                    Err(p) => {
+                        acc.viol.push((format!("C16|long-rid|{}|accessor-panics|{}", path, cls), format!("rid with component lengths {:?} via {}: a component accessor panicked: {}", lens, path, p), case.clone()));
+                        continue;
+                    }
+                };
+                if r.as_str() != text || r.to_string() != text {
+                    acc.viol.push((format!("C16|long-rid|{}|render|{}", path, cls), format!("rid with component lengths {:?} does not render back identically via {}", lens, path), case.clone()));
+                } else if got_parts.iter().zip(parts.iter()).any(|(a, b)| a != b) {
+                    let gl: Vec<usize> = got_parts.iter().map(|p| p.len()).collect();
+                    acc.viol.push((format!("C16|long-rid|{}|components-do-not-rejoin|{}", path, cls), format!("rid with component lengths {:?} via {}: accessors return components of lengths {:?}", lens, path, gl), case.clone()));
+                }
+            }
+        }
+    }
+}
+
 fn replay(path: &str, mut report: Report) -> Report {
     let v = vcommon::load_replay(path);
     let case = &v["case"];
@@ -640,6 +710,10 @@ fn replay(path: &str, mut report: Report) -> Report {
     match case["kind"].as_str() {
         Some("token") => check_token(case["input"].as_str().unwrap(), &mut acc),
         Some("rid") => check_rid(case["input"].as_str().unwrap(), &mut acc),
+        Some("long-rid") => {
+            let l: Vec<usize> = case["lens"].as_array().unwrap().iter().map(|x| x.as_u64().unwrap() as usize).collect();
+            check_long_rid([l[0], l[1], l[2], l[3]], &mut acc)
+        }
         Some("components") => {
             let c: Vec<&str> = case["components"]
                 .as_array()
